@@ -7,6 +7,7 @@ import (
 	"go/constant"
 	"go/token"
 	"go/types"
+	"os"
 	"sort"
 	"strings"
 
@@ -1267,3 +1268,5 @@ func decidingValues(f *ssa.Function, depth int, visit func(v ssa.Value)) {
 		}
 	}
 }
+
+func debugEnv(name string) bool { return os.Getenv(name) != "" }
